@@ -530,6 +530,47 @@ def collector_rule(ctx):
     return obs
 
 
+def updater_complete_rule(ctx):
+    """every binding-map updater runs to its end: no early return; where it reports the element with `E(N)`, that is its last,
+    unconditional statement (the runtime applies pending property changes only for reported elements)"""
+    ob = ctx.ob
+    tc = ctx.tc
+    obs = []
+    k = 0
+    with_report = 0
+    for f in tc.fns:
+        if not f.body or f.module[:1] != ["proc_gen"]:
+            continue
+        j = 0
+        for n in sir.walk(f.body):
+            if not (n.get("k") == "mcall" and n["m"] == "to_proc_gen_write_map"):
+                continue
+            for a in n["args"]:
+                if a.get("k") != "closure":
+                    continue
+                k += 1
+                j += 1
+                body = a["body"]
+                rets = [x for x in sir.walk(body, into_closures=False) if x.get("k") == "return"]
+                probs = []
+                if rets:
+                    probs.append("%d early return(s) inside the updater" % len(rets))
+                reports = [x for x in sir.walk(body) if x.get("k") == "lit" and x.get("t") == "str" and x.get("v") == "E(N)"]
+                if reports:
+                    with_report += 1
+                    stmts = body.get("stmts", []) if body.get("k") == "block" else []
+                    last = stmts[-1] if stmts else None
+                    ok_last = last is not None and any(x is reports[-1] for x in sir.walk(last)) and last.get("k") == "expr" and \
+                        sir.strip_ref(last["e"]).get("k") in ("mcall", "try") and not any(x.get("k") in ("if", "match") for x in sir.walk(last, into_closures=False) if x is not last)
+                    if not ok_last:
+                        probs.append("`E(N)` is not the last, unconditional statement of the updater")
+                obs.append(ob("C07.emit/complete/%s#%d" % (f.qual, j), not probs, ctx.where(f), "; ".join(probs) if probs else "the updater has no early exit%s" % (" and ends by reporting the element (`E(N)`)" if reports else ""),
+                              witness=None if not probs else "a property whose name starts with `on`/`bind` is set but never applied after a fast-path update"))
+    if k < 7 or with_report < 2:
+        obs.append(ob("C07.floor/updaters", False, "proc_gen/tag.rs", "%d updaters, %d reporting (floors 7 / 2)" % (k, with_report)))
+    return obs
+
+
 def run(ctx):
     from rules.c05 import check_iterators
     obs = []
@@ -552,4 +593,5 @@ def run(ctx):
     obs += dynamic_rule(ctx)
     obs += emit_rule(ctx)
     obs += collector_rule(ctx)
+    obs += updater_complete_rule(ctx)
     return obs
